@@ -1048,6 +1048,55 @@ fn timestamp_family(out: &mut Out) {
             }
         }
     }
+    // the statement's own domain: every day from 1970-01-01 to 2199-12-31 (quick: every 3rd day, shifted by the seed) at its first and last second, the date
+    // fields against a calendar algorithm that shares nothing with chrono (days -> civil date, Howard Hinnant's algorithm), widths included: YY is two digits
+    // also in the years 2000..2009 / 2100..2109 (seed U17_1), the 0-forms and compact forms are fixed-width
+    let civil = |days: i64| -> (i64, u32, u32) {
+        let z = days + 719468;
+        let era = z.div_euclid(146097);
+        let doe = z.rem_euclid(146097);
+        let yoe = (doe - doe / 1460 + doe / 36524 - doe / 146096) / 365;
+        let doy = doe - (365 * yoe + yoe / 4 - yoe / 100);
+        let mp = (5 * doy + 2) / 153;
+        let d = (doy - (153 * mp + 2) / 5 + 1) as u32;
+        let m = if mp < 10 { mp + 3 } else { mp - 9 } as u32;
+        (yoe + era * 400 + if m <= 2 { 1 } else { 0 }, m, d)
+    };
+    let last_day = 84005i64; // 2199-12-31
+    let step = if out.thorough { 1 } else { 3 };
+    let mut day = (out.below(3) as i64) % step;
+    let mut failures = 0;
+    while day <= last_day && failures < 5 {
+        let (y, m, d) = civil(day);
+        for (sec, hh, mi, ss) in [(0u64, 0u32, 0u32, 0u32), (86399, 23, 59, 59)] {
+            let ts = day as u64 * 86400 + sec;
+            let wants: [(&str, String); 14] = [
+                ("YYYY", format!("{y}")), ("YY", format!("{:02}", y % 100)), ("MM", format!("{m}")), ("0M", format!("{m:02}")), ("DD", format!("{d}")), ("0D", format!("{d:02}")),
+                ("HH", format!("{hh}")), ("0H", format!("{hh:02}")), ("mm", format!("{mi}")), ("0m", format!("{mi:02}")), ("SS", format!("{ss}")), ("0S", format!("{ss:02}")),
+                ("compact_date", format!("{y}{m:02}{d:02}")), ("compact_datetime", format!("{y}{m:02}{d:02}{hh:02}{mi:02}{ss:02}")),
+            ];
+            for (p, want) in wants.iter() {
+                out.cases += 1;
+                match zerv::version::zerv::resolve_timestamp(p, ts) {
+                    Ok(got) if &got == want => {}
+                    other => { failures += 1; out.cex("timestamp", format!("resolve_timestamp({p:?}, {ts}) = {other:?}, the UTC calendar field of {y}-{m:02}-{d:02} {hh:02}:{mi:02}:{ss:02} is {want:?}")); }
+                }
+            }
+            // week of the year, Monday as the first day (days before the first Monday are week 0): from the day of the year and the weekday
+            let jan1 = { let mut a = day; while civil(a).1 != 1 || civil(a).2 != 1 { a -= 1; } a };
+            let doy0 = day - jan1;
+            let wd_mon0 = (day + 3).rem_euclid(7); // 1970-01-01 was a Thursday
+            let week = (doy0 + 7 - wd_mon0) / 7;
+            for (p, want) in [("WW", format!("{week}")), ("0W", format!("{week:02}"))] {
+                out.cases += 1;
+                match zerv::version::zerv::resolve_timestamp(p, ts) {
+                    Ok(got) if got == want => {}
+                    other => { failures += 1; out.cex("timestamp", format!("resolve_timestamp({p:?}, {ts}) = {other:?}, the Monday-based week of {y}-{m:02}-{d:02} is {want:?}")); }
+                }
+            }
+        }
+        day += step;
+    }
 }
 
 // ------------------------------------------------------------------ schema validation
